@@ -35,7 +35,7 @@ pub fn all() -> Vec<Prop> {
                 "documents come from the C01 generator (carve-outs of DESIGN.md 3.2)",
             ],
             batches: vec![
-                Batch { name: "sweep", scenario: crate::scen_a::c19_sweep, quick: 50000, thorough: 60000, varies: "fault offset x fault kind x EINTR bursts x chunk policy x xref format x plain/incremental" },
+                Batch { name: "sweep", scenario: crate::scen_a::c19_sweep, quick: 50000, thorough: 40000, varies: "fault offset x fault kind x EINTR bursts x chunk policy x xref format x plain/incremental" },
                 Batch { name: "file", scenario: crate::scen_a::c19_file, quick: 2000, thorough: 20000, varies: "real kernel faults on save(path): ENOSPC below/above the BufWriter buffer, ENOENT, EISDIR" },
             ],
         },
